@@ -188,11 +188,9 @@ Theorem append_models_agree : forall v a fv fa r fr,
 Proof.
   intros v a fv fa r fr He Ha Hc Hf. unfold apply_filter in Hc. unfold FiltersStr.append_f in Hf.
   destruct (F.to_liquid_string fv) as [s| | |] eqn:Es; try discriminate. cbn [bind] in Hf.
-  rewrite (to_liquid_string_models_agree v fv s He Es) in Hc.
-  destruct a; try discriminate; cbn [emb] in Ha; cbn [py_str_arg] in Hc; try discriminate;
-    inversion Ha; subst fa; cbn in Hf.
-  all: try destruct b.
-  all: inversion Hc; inversion Hf; subst; cbn [emb]; rewrite ?str_of_Z_models_agree; reflexivity.
+  destruct (F.to_liquid_string fa) as [t| | |] eqn:Et; try discriminate. cbn [bind] in Hf.
+  rewrite (to_liquid_string_models_agree v fv s He Es), (to_liquid_string_models_agree a fa t Ha Et) in Hc.
+  inversion Hc; inversion Hf; subst. reflexivity.
 Qed.
 
 Lemma emb_VDict_cons k x r fv :
@@ -360,7 +358,7 @@ Proof.
     rewrite (to_liquid_string_models_agree x fx a Ex Ea), (IH fr b eq_refl Eb). reflexivity.
 Qed.
 
-(** join with no separator, a string separator or an integer separator *)
+(** join with no separator or any separator both models give a string form for *)
 Theorem join_models_agree : forall v fv args fsep r fr,
   emb v = Some fv ->
   match args, fsep with
@@ -389,9 +387,10 @@ Proof.
     cbn [emb]. rewrite join_strs_eq. reflexivity. }
   destruct args as [|a [|a2 args]]; destruct fsep as [fa|]; try contradiction.
   - cbn [apply_filter] in Hc. cbn [bind] in Hf. apply (Tail [32%N]); assumption.
-  - destruct a; cbn [apply_filter] in Hc; try discriminate; cbn [emb] in Hargs; inversion Hargs; subst fa.
-    + cbn [F.py_str bind] in Hf. rewrite <- str_of_Z_models_agree in Hf. apply (Tail (str_of_Z z)); assumption.
-    + cbn [F.py_str bind] in Hf. apply (Tail s); assumption.
+  - cbn [apply_filter] in Hc.
+    destruct (F.to_liquid_string fa) as [t| | |] eqn:Et; try discriminate. cbn [bind] in Hf.
+    rewrite (to_liquid_string_models_agree a fa t Hargs Et) in Hc.
+    apply (Tail t); assumption.
 Qed.
 
 (** Non-vacuity: both models answer (and agree) on a nested list joined with an
